@@ -137,9 +137,12 @@ class Taus(object):
 
         E_tau = np.zeros_like(betas)
 
-        E_tau[valid] = tau_cdf_sample(log_e_nu[valid], betas[valid], u)
+        u_valid = None if u is None else np.asarray(u)[valid]
+        u_low = None if u is None else np.asarray(u)[beta_low]
+
+        E_tau[valid] = tau_cdf_sample(log_e_nu[valid], betas[valid], u_valid)
         E_tau[beta_low] = tau_cdf_sample(
-            log_e_nu[beta_low], np.full(betas[beta_low].shape, beta_min), u
+            log_e_nu[beta_low], np.full(betas[beta_low].shape, beta_min), u_low
         )
         E_tau[beta_high] = np.finfo(np.float32).eps
 
